@@ -142,6 +142,7 @@ type rbGuard struct {
 	rolled    map[string]bool            // start|key
 	prewrote  map[uint64]map[string]uint64 // start -> key -> region id of the successful prewrite
 	rejected  int
+	cneNormalised int // prewrite answers of CheckNotExists-only batches whose min-commit ts was normalised (U6)
 }
 
 func newGuard() *rbGuard {
@@ -254,6 +255,7 @@ type plan struct {
 	faults  map[int]string     // index -> action kind
 	from    map[string]int     // "blackhole_req"/"blackhole_resp" -> starting index (applies to every later counted request)
 	hooks   map[int]func()     // run before delivering request index i
+	after   map[int]func()     // run after request index i was delivered (and answered by the store), before its answer is seen or dropped
 	filter  func(req *tikvrpc.Request) bool
 	active  atomic.Bool        // counting enabled
 	maxIdx  int
@@ -275,7 +277,7 @@ type gate struct {
 }
 
 func newGate(inner tikv.Client, id string, tr *Trace, reqSeq *atomic.Int64) *gate {
-	return &gate{inner: inner, id: id, trace: tr, plan: &plan{faults: map[int]string{}, from: map[string]int{}, hooks: map[int]func(){}}, reqSeq: reqSeq, never: make(chan struct{})}
+	return &gate{inner: inner, id: id, trace: tr, plan: &plan{faults: map[int]string{}, from: map[string]int{}, hooks: map[int]func(){}, after: map[int]func(){}}, reqSeq: reqSeq, never: make(chan struct{})}
 }
 
 func (g *gate) Close() error                 { return nil }
@@ -382,13 +384,32 @@ func (g *gate) SendRequest(ctx context.Context, addr string, req *tikvrpc.Reques
 		resp = g.guard.reject(req)
 	}
 	if resp == nil {
+		// decided before delivery: unistore rewrites the request in place (min-commit ts, flags)
+		cneOnly, wantMin := checkNotExistsOnly(req), uint64(0)
+		if cneOnly {
+			wantMin = req.Prewrite().MinCommitTs
+			if s := req.Prewrite().StartVersion + 1; wantMin < s {
+				wantMin = s
+			}
+		}
 		resp, err = g.inner.SendRequest(ctx, addr, req, timeout)
 		if g.guard != nil {
 			g.guard.observe(req, resp, err)
 		}
+		if cneOnly {
+			normaliseCheckNotExistsMinCommit(req, resp, wantMin, g.guard)
+		}
 	}
 	rf := respFields(req, resp, err)
 	g.trace.add(Event{Kind: "deliver", Client: g.id, ReqID: id, Cmd: req.Type.String(), F: rf})
+	if idx >= 0 {
+		g.plan.mu.Lock()
+		ah := g.plan.after[idx]
+		g.plan.mu.Unlock()
+		if ah != nil {
+			ah()
+		}
+	}
 	g.inflight.Add(-1)
 	if act == "crash_delivered" {
 		g.mu.Lock()
@@ -412,6 +433,42 @@ func (g *gate) SendRequest(ctx context.Context, addr string, req *tikvrpc.Reques
 	g.trace.add(Event{Kind: "reply", Client: g.id, ReqID: id, Cmd: req.Type.String(), F: rf})
 	g.mu.Unlock()
 	return resp, err
+}
+
+// normaliseCheckNotExistsMinCommit: environment normalisation U6 (docs/TXN.md). For an async-commit / 1PC prewrite whose
+// mutations are all Op_CheckNotExists unistore answers with a min-commit ts taken from PD although it wrote no lock; TiKV
+// answers max(requested min-commit ts, start ts + 1) for such mutations (they are not persisted). The owner would commit at
+// a timestamp no lock carries, while a resolver derives the commit ts from the locks.
+func normaliseCheckNotExistsMinCommit(req *tikvrpc.Request, resp *tikvrpc.Response, want uint64, g *rbGuard) {
+	if req.Type != tikvrpc.CmdPrewrite || resp == nil || resp.Resp == nil {
+		return
+	}
+	r := req.Prewrite()
+	pr, ok := resp.Resp.(*kvrpcpb.PrewriteResponse)
+	if !ok || !(r.UseAsyncCommit || r.TryOnePc) || pr.MinCommitTs == 0 || pr.RegionError != nil || len(pr.Errors) > 0 || len(r.Mutations) == 0 {
+		return
+	}
+	if pr.MinCommitTs != want {
+		pr.MinCommitTs = want
+		if g != nil {
+			g.mu.Lock()
+			g.cneNormalised++
+			g.mu.Unlock()
+		}
+	}
+}
+
+func checkNotExistsOnly(req *tikvrpc.Request) bool {
+	if req.Type != tikvrpc.CmdPrewrite {
+		return false
+	}
+	ms := req.Prewrite().Mutations
+	for _, m := range ms {
+		if m.Op != kvrpcpb.Op_CheckNotExists {
+			return false
+		}
+	}
+	return len(ms) > 0
 }
 
 func fabricateRegionErr(kind string, req *tikvrpc.Request) *errorpb.Error {
